@@ -1144,12 +1144,20 @@ func main() {
 	npage := flag.Int("page", 12, "number of trpage scenarios (page pool cross-talk between Fetch responses)")
 	nmuxcut := flag.Int("muxcut", 24, "number of muxcut scenarios (concurrent Conn operations, first answer cut at byte k)")
 	nmeta := flag.Int("meta", 10, "number of trmeta scenarios (first metadata response of a fresh Transport cut)")
+	nbatch := flag.Int("batchrd", 40, "number of batchrd scenarios (Batch reads on real message sets, forged frames in the values)")
+	child := flag.String("child", "", "internal: run one scenario of this family in this process")
+	sub := flag.Int64("sub", 0, "internal: sub-seed of the child scenario")
 	nlate := flag.Int("late", 24, "number of trlate scenarios (deadline mid-exchange, late answer, followers)")
 	flag.Parse()
 
 	{
 		cl, _ := muxfake.Pipe()
 		fetchMinSize = kafka.VerifFetchMinSize(kafka.VerifMuxConn(cl))
+	}
+
+	if *child == "batchrd" {
+		batchRdChild(*sub)
+		return
 	}
 
 	r := rand.New(rand.NewSource(*seed))
@@ -1196,6 +1204,9 @@ func main() {
 	}
 	for i := 0; i < *nmeta; i++ {
 		add(genTRMeta(r))
+	}
+	for i := 0; i < *nbatch; i++ {
+		add(genBatchRd(r))
 	}
 
 	// big scenarios first, results printed in id order
